@@ -16,6 +16,8 @@ func init() {
 	zzsv.Register("ZZ_C02_Programs", ZZ_C02_Programs)
 	zzsv.Register("ZZ_C02_SwitchRegexp", ZZ_C02_SwitchRegexp)
 	zzsv.Register("ZZ_C02_ConstantConditions", ZZ_C02_ConstantConditions)
+	zzsv.Register("ZZ_C02_SameIterable", ZZ_C02_SameIterable)
+	zzsv.Register("ZZ_C02_StatementValues", ZZ_C02_StatementValues)
 }
 
 // zzGen generates control-flow programs.
@@ -328,4 +330,147 @@ func ZZ_C02_ConstantConditions(sv *zzsv.T) {
 	ref, want := zzRunRef(sv, p, g.vars, nil)
 	zzDescribe(sv, "result", out, rerr)
 	zzCompareRun(sv, "C02.const", e, out, rerr, trace, ref, want, []string{"x", "w1"})
+}
+
+// ZZ_C02_SameIterable: loops that run at the same time over the same
+// container - the same variable, or two literals with the same spelling
+// (which share one constant) - nested directly, through a function called
+// from the outer body, or one after the other: every loop still visits every
+// entry exactly once, in order.
+func ZZ_C02_SameIterable(sv *zzsv.T) {
+	n := sv.Choice("len", 3) // 0..2 entries
+	s := zzASCII(sv, "chars", n)
+	kind := sv.Choice("container", 4) // string variable, string literal twice, array variable, range
+	shape := sv.Choice("shape", 3)    // nested, via a function, sequential
+	var it1, it2 string
+	vars := map[string]zv{}
+	var order []string
+	var elems []zv
+	switch kind {
+	case 0:
+		it1, it2 = "S", "S"
+		vars["S"] = zStr(s)
+		order = append(order, "S")
+		for i := 0; i < n; i++ {
+			elems = append(elems, zStr(s[i:i+1]))
+		}
+	case 1:
+		// two literals with the same concrete spelling
+		lit := []string{"", "x", "xy"}[n]
+		it1, it2 = "\"" + lit + "\"", "\"" + lit + "\""
+		for i := 0; i < n; i++ {
+			elems = append(elems, zStr(lit[i:i+1]))
+		}
+	case 2:
+		it1, it2 = "A", "A"
+		av := zv{t: tArray}
+		for i := 0; i < n; i++ {
+			el := zInt(sv.Int64("el"))
+			av.arr = append(av.arr, el)
+			elems = append(elems, el)
+		}
+		vars["A"] = av
+		order = append(order, "A")
+	default:
+		it1, it2 = "1.."+string(rune('0'+n)), "1.."+string(rune('0'+n))
+		sv.Assume(n > 0)
+		for i := 0; i < n; i++ {
+			elems = append(elems, zInt(int64(i+1)))
+		}
+	}
+	var src string
+	switch shape {
+	case 0:
+		src = "foreach a in " + it1 + " { t(a); foreach b in " + it2 + " { t(b); } } return 7;"
+	case 1:
+		src = "function inner() { foreach b in " + it2 + " { t(b); } return 0; } foreach a in " + it1 + " { t(a); inner(); } return 7;"
+	default:
+		src = "foreach a in " + it1 + " { t(a); } foreach b in " + it2 + " { t(b); } return 7;"
+	}
+	sv.Note("script", src)
+	var trace []object.Object
+	e, err := zzPrepare(sv, src, vars, order, sv.Choice("noopt", 2) == 1, &trace)
+	sv.Assume(err == nil)
+	out, rerr := e.Execute(nil)
+	zzDescribe(sv, "result", out, rerr)
+	sv.Assert("C02.same.noerror", rerr == nil && zzSame(sv, out, zInt(7)))
+	var want []zv
+	if shape == 2 {
+		want = append(append(want, elems...), elems...)
+	} else {
+		for _, a := range elems {
+			want = append(want, a)
+			want = append(want, elems...)
+		}
+	}
+	sv.Assert("C02.same.visits", len(trace) == len(want))
+	if len(trace) == len(want) {
+		for i := range want {
+			sv.Assert("C02.same.entry", zzSame(sv, trace[i], want[i]))
+		}
+	}
+}
+
+// ZZ_C02_StatementValues: a statement that is just an expression - a call
+// whose result is not used, a literal, an operator expression - changes
+// nothing about the control flow around it, in every kind of body.
+func ZZ_C02_StatementValues(sv *zzsv.T) {
+	stmts := []string{"f(a);", "5;", "len(A);", "a + 1;", "A;", "\"s\";", "f(a) == 1;", "a ? 1 : 2;", "t(0) ; f(a);"}
+	st := stmts[sv.Choice("statement", len(stmts))]
+	bodies := []string{
+		"foreach a in A { t(a); STMT } return 7;",
+		"foreach a in A { STMT t(a); } return 7;",
+		"foreach i, a in A { if (a == a) { STMT } t(a); } return 7;",
+		"foreach a in A { foreach b in A { STMT } t(a); } return 7;",
+		"function g(p) { foreach a in p { STMT t(a); } return 1; } u = g(A); return 7;",
+		"foreach a in A { switch (a) { case 1 { STMT } default { STMT } } t(a); } return 7;",
+		"k = 0; while (k < len(A)) { a = A[k]; STMT t(a); k = k + 1; } return 7;",
+		"foreach a in A { t(a); STMT } foreach a in A { STMT t(a); } return 7;",
+	}
+	b := sv.Choice("body", len(bodies))
+	src := "function f(x) { return x; } "
+	for i := 0; i < len(bodies[b]); i++ {
+		if i+4 <= len(bodies[b]) && bodies[b][i:i+4] == "STMT" {
+			src += st
+			i += 3
+		} else {
+			src += string(bodies[b][i])
+		}
+	}
+	sv.Note("script", src)
+	n := sv.Choice("len", 3)
+	av := zv{t: tArray}
+	for i := 0; i < n; i++ {
+		av.arr = append(av.arr, zInt(sv.Int64("el")))
+	}
+	var trace []object.Object
+	e, err := zzPrepare(sv, src, map[string]zv{"A": av}, []string{"A"}, sv.Choice("noopt", 2) == 1, &trace)
+	sv.Assume(err == nil)
+	out, rerr := e.Execute(nil)
+	zzDescribe(sv, "result", out, rerr)
+	sv.Assert("C02.stmt.noerror", rerr == nil && zzSame(sv, out, zInt(7)))
+	// the calls t(a), one per element (twice for the last body), apart from
+	// the statement's own t(0)
+	var got []object.Object
+	for _, o := range trace {
+		if i, ok := o.(*object.Integer); ok && st == "t(0) ; f(a);" && i.Value == 0 {
+			// (an element may itself be 0: then the counts below still decide)
+			continue
+		}
+		got = append(got, o)
+	}
+	want := n
+	if b == 7 {
+		want = 2 * n
+	}
+	if st != "t(0) ; f(a);" {
+		sv.Assert("C02.stmt.visits", len(got) == want)
+		if len(got) == want {
+			for i := range got {
+				sv.Assert("C02.stmt.entry", zzSame(sv, got[i], av.arr[i%n]))
+			}
+		}
+	} else {
+		sv.Assert("C02.stmt.visits", len(trace) >= want)
+	}
 }
